@@ -99,6 +99,9 @@ func (db *LDBDatabase) Put(key []byte, value []byte) error {
 	if !db.inited {
 		return ErrLDBInit
 	}
+	if verifDropWrite() {
+		return nil
+	}
 	return db.db.Put(key, value, nil)
 }
 
@@ -128,6 +131,9 @@ func (db *LDBDatabase) Get(key []byte) ([]byte, error) {
 func (db *LDBDatabase) Delete(key []byte) error {
 	if !db.inited {
 		return ErrLDBInit
+	}
+	if verifDropWrite() {
+		return nil
 	}
 	return db.db.Delete(key, nil)
 }
@@ -178,6 +184,9 @@ func (b *ldbBatch) Put(key, value []byte) error {
 
 func (b *ldbBatch) Write() error {
 	b.logger.Debugf("batchWrite. length: %d ", b.size)
+	if verifDropWrite() {
+		return nil
+	}
 	return b.db.Write(b.b, nil)
 }
 
